@@ -210,7 +210,7 @@ theorem exec_post {s s' : State} {op : Op} (h : exec s op = .ok s') (hbb : op â‰
   | govwithdraw au d t cs => exact govWithdrawEscrow_post h
   | govsetadmin au d a ps => exact govSetAdministrator_post h
   | govrmadmin au d a => exact govRemoveAdministrator_post h
-  | params au mx eg => exact updateParams_post _ h
+  | params au mx mts eg => exact updateParams_post _ h
   | send f t d n => exact bankSend_post h
   | beginblock => exact absurd rfl hbb
   | fmint t d n => exact foreignMint_post henv h
